@@ -25,6 +25,8 @@ CLAIMED = {
             "mutation is modelled at value level (a rejected call returns no new state); that a rejected call leaves the real object untouched is checked by the correspondence (state re-observed after every step)"),
     "C09": ("6 C09", "C09_raise_or_wf (ValueError or a consistent strict converter), C09_union_grouping (exactly the union of the inputs' prefixes and URI prefixes; co-recorded strings stay together), C09_priority / C09_priority_expand (case-sensitive: every record of the first converter survives with its canonical prefix, URI prefix and pattern, so its prefixes expand as in c1), C09_singleton, C09_fold_distinct (case-insensitive: no two result records hold keys equal up to case), C09_sub / C09_sub_prefixes / C09_sub_uris; by induction over the fold of add_record(merge=True) using the C05 step lemmas; for all casefold tables.",
             "derived converters get the default delimiter ':' (as in the code); inputs use ':' in the generated cases"),
+    "C17": ("6 C17", "PARTIAL. Proved: the handler logic shared by both frameworks -- C17_response (every well-formed request gets the specified response), C17_known (known prefix or synonym: 302 to expand of the CURIE, split at the first delimiter, identifiers with '/' or the delimiter passed whole), C17_unknown (422); FAILURE_CODE tied by a generated obligation. Not modelled: Werkzeug / Starlette routing, percent-decoding, Location quoting -- these are exercised by driving the real in-process Flask client and Starlette TestClient on the same requests and comparing both with each other and with the model.",
+            "the route contract (non-empty slash-free prefix, non-empty path identifier) is an assumption about the web frameworks validated only by the run"),
 }
 NOT_YET = {}
 
